@@ -1,6 +1,6 @@
 (** C06 -- Lists and records are shared by reference; indexed write then read agree. *)
 From Pakhi Require Import Base Float64 Syntax Tables Lexer Interp.
-From Pakhi.Proofs Require Import Assoc Scope ListOps HeapRW.
+From Pakhi.Proofs Require Import Assoc Scope ListOps HeapRW Unfold.
 Local Open Scope nat_scope.
 
 (* Reference semantics: a value of list or record type *is* an address (VList a / VRec a).  Declaring another
@@ -13,8 +13,8 @@ Theorem C06_alias_copies_the_address : forall code fuel m x y yp xp p v,
   exists m', interp code (S (S fuel)) m = Ok m' /\
              lookup_var y (m_scopes m') = Some v /\ lookup_var x (m_scopes m') = Some v /\ m_heap m' = m_heap m.
 Proof.
-  intros code fuel m x y yp xp p v Hs Hx Hne Hxy. cbn [interp]. rewrite Hs.
-  cbn [eval]. rewrite Hx. cbn [bind].
+  intros code fuel m x y yp xp p v Hs Hx Hne Hxy. rewrite interp_S. unfold interp_step. rewrite Hs.
+  rewrite eval_S. unfold eval_step. rewrite Hx. cbn [bind].
   destruct (m_scopes m) as [|s r] eqn:E; [congruence|]. cbn [declare bind].
   eexists. split; [reflexivity|]. cbn [m_scopes set_scopes next set_pc m_heap]. split; [|split; [|reflexivity]].
   - simpl. rewrite alist_get_set_same. reflexivity.
